@@ -34,7 +34,8 @@ SPEC = {
 }
 
 SLIVER = 1e-3          # faces below this fraction of the frame's median weight are numerically degenerate: ties
-ONE_SIDED_MAX = 0.1    # 'small face' bound of the known one-sided-face mechanism (fraction of the median weight)
+ONE_SIDED_MAX = 0.1    # a face below this fraction of the median weight present in one implementation only is a tie w.r.t. the oracle
+MAX_ONE_SIDED_PER_FRAME = 2   # the known one-sided-face artefact is isolated; more pairs than this in one frame is something else
 
 
 def parse_overall(path):
@@ -43,7 +44,7 @@ def parse_overall(path):
     return lines[0], lines[1:]
 
 
-def make_traj(rng, d, N, frames, thorough=False, poskind=None):
+def make_traj(rng, d, N, frames, thorough=False, poskind=None, independent_frames=False):
     """orthogonal box, any origin; returns (Snapshots, info)"""
     SingleSnapshot, Snapshots = gc.records()
     okind = str(rng.choice(["zero", "neg", "large", "asym", "centred", "zerosum"]))
@@ -73,7 +74,10 @@ def make_traj(rng, d, N, frames, thorough=False, poskind=None):
             lo[1] -= s
         else:
             lo = rng.uniform(-3, 3, size=d)
-        f = (f0 + (rng.normal(0, 0.05, f0.shape) if t else 0.0)) % 1.0
+        if independent_frames and t:
+            f = gc.make_frac(rng, d, N, poskind)          # every frame keeps the minimum distance of its generator
+        else:
+            f = (f0 + (rng.normal(0, 0.05, f0.shape) if t else 0.0)) % 1.0
         pos = lo + f * L
         snaps.append(SingleSnapshot(timestep=100 * t, nparticle=N, particle_type=np.ones(N, dtype=int), positions=pos,
                                     boxlength=L.copy(), boxbounds=np.column_stack([lo, lo + L]), realbounds=None, hmatrix=np.diag(L)))
@@ -128,6 +132,7 @@ def analyse_frame(ctx, key, k, s, nb, wt, vol, info):
     for i in range(N):
         for j, w in zip(nb[i], wt[i]):
             pair.setdefault((i, j), []).append(w)
+    onesided = []
     for (i, j) in sorted(set(pair) | {(b, a) for (a, b) in pair}):
         if i > j:
             continue
@@ -143,15 +148,26 @@ def analyse_frame(ctx, key, k, s, nb, wt, vol, info):
         if max(lone) < thr:
             ctx.skip("symmetry", len(lone))      # numerically degenerate faces: ties (R1)
             continue
-        # faces listed on one side only.  Mechanism "one-sided small face": the independent tessellation has the face (same
-        # area) for both cells, it is small against the frame's median, and the library kept it for one cell only.
+        # faces listed on one side only.  Known mechanism "one-sided face": the independent tessellation has the face -- same
+        # area -- for BOTH cells, the library lists it for one cell only (3-D, isolated: at most two pairs per frame, weights from
+        # 1e-3 to 0.4 of the median seen).  Anything else (unequal weights both ways, a face the oracle does not have, many pairs)
+        # is an ordinary violation.
         refw = ref_pair.get((i, j), [])
-        confirmed = t["ok"] and all(x < ONE_SIDED_MAX * med and any(abs(x - r) <= 2e-5 * max(allw.max(), 1.0) + 1e-6 for r in refw)
-                                     for x in lone if x >= thr)
-        sub = "/one-sided-small-face" if confirmed else ""
+        refb = ref_pair.get((j, i), [])
+        wt_tol = 2e-5 * max(float(allw.max()), 1.0) + 1e-6
+        confirmed = bool(t["ok"] and (not ua or not ub) and all(any(abs(x - r) <= wt_tol for r in refw) and any(abs(x - r) <= wt_tol for r in refb)
+                                                                for x in lone if x >= thr))
+        onesided.append((i, j, ws, back, refw, confirmed, [x for x in lone if x >= thr]))
+    isolated = len(onesided) <= MAX_ONE_SIDED_PER_FRAME and all(o[5] for o in onesided)
+    known_faces = set()
+    for (i, j, ws, back, refw, confirmed, big) in onesided:
+        sub = "/one-sided-face" if isolated else ""
+        if isolated:
+            known_faces.update((i, j, round(x, 5)) for x in big)
+            known_faces.update((j, i, round(x, 5)) for x in big)
         ctx.check("symmetry", False, key.split("/")[0] + "/symmetry" + sub,
                   lambda: f"frame {k}: pair ({i + 1},{j + 1}) weights {ws} one way, {back} the other (median weight {med:.4g}; "
-                          f"independent tessellation has {[round(x, 6) for x in refw]} both ways)", info)
+                          f"independent tessellation has {[round(x, 6) for x in refw]} both ways; {len(onesided)} such pair(s) in the frame)", info)
     # --- volumes
     V = float(np.prod(L))
     ctx.close("volume_sum", vol.sum(), V, key + "/volume_sum", rtol=1e-6, atol=N * 0.5e-6, what=f"frame {k}: sum of cell volumes", data=info, n=1)
@@ -160,22 +176,40 @@ def analyse_frame(ctx, key, k, s, nb, wt, vol, info):
         ctx.skip("oracle_neighbors", N)
         return
     wmax = max(w for l in t["neighbors"] for (_j, w, _c, _r) in l)
-    ctx.close("oracle_volumes", vol, t["volumes"], key + "/oracle/volumes", rtol=2e-5, atol=1e-6,
-              what=f"frame {k}: cell volumes vs independent tessellation", data=info)
-    wtol = 2e-5 * wmax + 1e-6
+    # conditioning: the library stores coordinates in single precision (absolute rounding ~ 4e-7 here).  A second oracle run on
+    # coordinates perturbed by 1e-6 measures how much each cell volume / face weight moves under such a perturbation
+    # (near-degenerate vertices of perturbed lattices amplify it a hundredfold); ten times that is allowed on top of 2e-5 relative.
+    prng = np.random.default_rng(int(abs(float(s.positions.sum())) * 1e6) % (2 ** 32))
+    t2 = rv.periodic_voronoi(s.positions - s.boxbounds[:, 0] + prng.uniform(-1e-6, 1e-6, size=s.positions.shape), L)
+    vsens = np.abs(t2["volumes"] - t["volumes"]) if t2["ok"] else np.zeros(N)
+    vtol = 2e-5 * float(t["volumes"].max()) + 1e-6 + 10 * vsens
+    ctx.mon("oracle_volumes")["comparisons"] += N
+    badv = np.abs(vol - t["volumes"]) > vtol
+    if badv.any():
+        i0 = int(np.argmax(badv))
+        ctx.violation(key + "/oracle/volumes", f"frame {k}: cell volume of particle {i0 + 1} is {vol[i0]} in the file, {t['volumes'][i0]} in the independent "
+                      f"tessellation (allowed {vtol[i0]:.3g}); {int(badv.sum())} cells differ", info(), "oracle_volumes")
     for i in range(N):
-        mine, theirs = {}, {}
+        mine, theirs, sens = {}, {}, {}
         for j, w in zip(nb[i], wt[i]):
             mine.setdefault(j, []).append(w)
         for (j, w, _c, _r) in t["neighbors"][i]:
             theirs.setdefault(j, []).append(w)
+        if t2["ok"]:
+            th2 = {}
+            for (j, w, _c, _r) in t2["neighbors"][i]:
+                th2.setdefault(j, []).append(w)
+            for j in theirs:
+                a_, b_ = sorted(theirs[j]), sorted(th2.get(j, []))
+                sens[j] = max((abs(x - y) for x, y in zip(a_, b_)), default=0.0) if len(a_) == len(b_) else wmax
         bad, small, nmatched = [], 0, 0
         for j in set(mine) | set(theirs):
+            wtol = 2e-5 * wmax + 1e-6 + 10 * sens.get(j, 0.0)
             ua, ub = _multiset_match(mine.get(j, []), theirs.get(j, []), wtol)
             nmatched += len(mine.get(j, [])) - len(ua)
             for x in ua + ub:
-                if x < ONE_SIDED_MAX * med:
-                    small += 1      # small face kept by one implementation only: tie w.r.t. the oracle (symmetry decides)
+                if x < ONE_SIDED_MAX * med or (i, j, round(x, 5)) in known_faces:
+                    small += 1      # small face kept by one implementation only / the known one-sided face: the symmetry monitor decides
                 else:
                     bad.append((j + 1, x))
         ctx.skip("oracle_neighbors", small)
@@ -266,7 +300,7 @@ def vm_case(ctx, rng, wd, i):
     N = int(rng.integers(8, 15 if d == 2 else 12))
     frames = int(rng.choice([1, 2, 3, 4]))
     # hard-core positions: the finite-difference step must stay small against every pair distance
-    snaps, inf = make_traj(rng, d, N, frames, poskind="hardcore")
+    snaps, inf = make_traj(rng, d, N, frames, poskind="hardcore", independent_frames=True)
     N = inf["N"]
     k = int(rng.integers(0, frames))
     if i % 4 == 1 and frames > 1:
@@ -303,8 +337,31 @@ def vm_case(ctx, rng, wd, i):
     G, t = rv.volume_gradient(s.positions - s.boxbounds[:, 0], s.boxlength)
     if t["ok"]:
         An = (G / t["volumes"][:, None, None]).reshape(N, N * d)
-        ctx.close("vm_oracle", A, An, key + "/oracle", rtol=2e-2, scale=float(np.abs(An).max()),
-                  what="volume-response matrix vs analytic derivative of an independent tessellation", data=info, n=1)
+        sca = float(np.abs(An).max())
+        badm = np.abs(A - An) > 2e-2 * sca
+        ctx.mon("vm_oracle")["comparisons"] += 1
+        if badm.any():
+            # the code differentiates numerically: where the tessellation changes topology inside the step (or two particles are
+            # within a few steps of each other) its central difference legitimately departs from the derivative.  Those entries are
+            # decided by central differences of the ORACLE at the same step.
+            p0 = s.positions - s.boxbounds[:, 0]
+            still = []
+            for c in np.unique(np.nonzero(badm)[1]):
+                j, a = divmod(int(c), d)
+                p1, p2 = p0.copy(), p0.copy()
+                p1[j, a] += h
+                p2[j, a] -= h
+                col = (rv.periodic_voronoi(p1, s.boxlength)["volumes"] - rv.periodic_voronoi(p2, s.boxlength)["volumes"]) / (2 * h) / t["volumes"]
+                for r in np.nonzero(badm[:, c])[0]:
+                    if r == j:
+                        continue        # self term: defined through the row sum, judged by the row-sum monitor
+                    if abs(A[r, c] - col[r]) > 1e-3 * sca:
+                        still.append((int(r), int(c), float(A[r, c]), float(col[r]), float(An[r, c])))
+                    else:
+                        ctx.skip("vm_oracle")
+            if still:
+                ctx.violation(key + "/oracle", f"volume-response matrix: entries (row, column, returned, central difference of an independent tessellation, "
+                              f"analytic derivative) {still[:4]}", info(), "vm_oracle")
         cs = (t["volumes"][:, None] * A).sum(axis=0)
         ctx.close("vm_oracle", cs, np.zeros_like(cs), key + "/volume_conservation", atol=3e-2 * float(np.abs(t["volumes"][:, None] * A).max()), rtol=0.0,
                   what="sum_i V_i A[i, c] (total volume is conserved)", data=info, n=1)
@@ -361,7 +418,7 @@ def vm_case(ctx, rng, wd, i):
 
 
 def known_input_case(ctx, wd):
-    """the archived configuration of the known finding 'one-sided small face' (known_findings.json): run on every check so the
+    """the archived configuration of the known finding 'one-sided face' (known_findings.json): run on every check so the
     finding is re-observed (and reported as KNOWN-FINDING) deterministically, not only when the random workload happens on it."""
     import json
     from PyMatterSim.neighbors.freud_neighbors import cal_neighbors
